@@ -97,7 +97,7 @@ func execRules(h *vh.H, op string) string {
 		return "bad-op"
 	}
 	valToks := strings.Fields(parts[1])
-	h.Count("rules.kind." + spec.Kind + map[bool]string{true: ".array", false: ""}[spec.Arr])
+	h.Count("rules.kind." + spec.Kind + map[bool]string{true: ".array", false: ""}[spec.Arr] + map[bool]string{true: ".map", false: ""}[spec.Map])
 
 	file, err := compileJ5s(FileText(nil, []*Spec{spec}))
 	if err != nil {
@@ -149,7 +149,7 @@ func execRules(h *vh.H, op string) string {
 			h.Count("rules.oracle.skipped")
 			continue
 		}
-		if spec.Opt && !spec.Arr && !fd.HasPresence() && v.Absent {
+		if spec.Opt && !spec.Arr && !spec.Map && !fd.HasPresence() && v.Absent {
 			// `? type` declares a field whose absence is distinguishable; the compiled field has no presence
 			if ok2, _, _ := j5Accepts(spec, v, true); ok2 && verdict == 'R' {
 				h.Fail("optional-field-without-presence", op, fmt.Sprintf("explicitly optional field left unset is rejected (%s) under %s: proto3_optional is set but the field has no presence", detail, emitted))
@@ -179,6 +179,9 @@ func execRules(h *vh.H, op string) string {
 func kindTag(s *Spec) string {
 	if s.Arr {
 		return "array:" + s.Kind
+	}
+	if s.Map {
+		return "map:" + s.Kind
 	}
 	return s.Kind
 }
@@ -232,7 +235,7 @@ func admissible(s *Spec) bool {
 	if (s.Kind == "str" || s.Kind == "bytes") && s.MinL != nil && s.MaxL != nil && *s.MinL > *s.MaxL {
 		return false
 	}
-	if s.Arr && s.AMin != nil && s.AMax != nil && *s.AMin > *s.AMax {
+	if (s.Arr || s.Map) && s.AMin != nil && s.AMax != nil && *s.AMin > *s.AMax {
 		return false
 	}
 	if s.Kind == "enum" {
@@ -288,7 +291,7 @@ func execSchema(h *vh.H, op string) string {
 			return "bad-op"
 		}
 		specs = append(specs, s)
-		h.Count("schema.kind." + s.Kind + map[bool]string{true: ".array", false: ""}[s.Arr])
+		h.Count("schema.kind." + s.Kind + map[bool]string{true: ".array", false: ""}[s.Arr] + map[bool]string{true: ".map", false: ""}[s.Map])
 		if s.Kind == "enum" && s.LR != nil && len(s.LR.DefaultFilters) > 0 {
 			h.Count("schema.enum.default-filters." + map[bool]string{true: "options", false: "not-options(inadmissible)"}[enumFiltersOK(s)])
 		}
@@ -426,6 +429,9 @@ func reflectAll(file protoreflect.FileDescriptor, specs []*Spec) (lines []string
 		if af, ok := fs.(*j5schema.ArrayField); ok {
 			fs = af.Schema
 		}
+		if mf, ok := fs.(*j5schema.MapField); ok {
+			fs = mf.Schema
+		}
 		if ef, ok := fs.(*j5schema.EnumField); ok {
 			es := ef.Schema()
 			f.set("epfx", hexS(es.NamePrefix))
@@ -475,11 +481,19 @@ func diffSignature(s *Spec, k, dv, rv string) string {
 		// the rules of date / decimal items travel in the item's (j5.ext.v1.field), which the array annotation replaces
 		return "schema-diff:array:" + s.Kind + ":rules:dropped"
 	}
+	if s.Map && (s.Kind == "date" || s.Kind == "dec") && rv == "~" && (k == "min" || k == "max" || k == "emin" || k == "emax") {
+		// ... and for map values in the (j5.ext.v1.field) of the entry's value field, which nothing reads
+		return "schema-diff:map:" + s.Kind + ":rules:dropped"
+	}
+	if s.Map && k == "lr" && rv == "~" {
+		// one class whatever the value type: the list rules are written on the entry's value field
+		return "schema-diff:map:value-list-rules:dropped"
+	}
 	sig := "schema-diff:" + kindTag(s) + ":" + k + ":" + class
 	switch {
 	case s.Kind == "str" && k == "kind" && s.Pat != nil && *s.Pat == id62Pattern:
 		sig += "[id62-pattern]"
-	case s.Kind == "key" && s.Arr && (k == "kind" || k == "kf"):
+	case s.Kind == "key" && (s.Arr || s.Map) && (k == "kind" || k == "kf"):
 		sig += "[kf=" + s.KF + "]"
 	}
 	return sig
@@ -494,11 +508,14 @@ func specQual(s *Spec) string {
 	if s.Pat != nil && *s.Pat == id62Pattern {
 		q = append(q, "id62-pattern")
 	}
-	if s.LR != nil {
-		q = append(q, "lr")
-	}
-	if s.R {
-		q = append(q, "rules")
+	if s.Kind == "str" || s.Kind == "key" {
+		// only for strings and keys do list rules / rules decide how the reader classifies the field
+		if s.LR != nil {
+			q = append(q, "lr")
+		}
+		if s.R {
+			q = append(q, "rules")
+		}
 	}
 	if len(q) == 0 {
 		return ""
